@@ -130,6 +130,7 @@ def file_class(tool, rel):
 
 def norm_line(s):
     s = re.sub(r'0x[0-9a-fA-F]+', 'H', s)
+    s = re.sub(r'\b(?=[0-9a-fA-F]*\d)(?=[0-9a-fA-F]*[a-fA-F])[0-9a-fA-F]{4,}\b', 'H', s)     # bare hexadecimal runs (a5a5, 7ffe12ab)
     s = re.sub(r'-?\d+', 'N', s)
     s = re.sub(r'\s+', ' ', s).strip()
     return s[:60]
@@ -164,11 +165,17 @@ def differing_lines(a_path, b_path, limit=40):
         return [(None, None)]
     if len(a) == len(b):
         out = [(x, y) for x, y in zip(a, b) if x != y]
+        if len(out) > 3 and collections.Counter(a) == collections.Counter(b):
+            return [(REORDERED, REORDERED)]
         return out[:limit]
     ca, cb = collections.Counter(a), collections.Counter(b)
     only_a = list((ca - cb).elements())[:limit // 2]
     only_b = list((cb - ca).elements())[:limit // 2]
     return [(x, None) for x in only_a] + [(None, y) for y in only_b] or [(None, None)]
+
+
+REORDERED = '\0same lines in a different order'
+MAX_LINE_FEATURES_PER_FILE = 3      # a reordering or a shifted block differs in hundreds of lines: name the first few classes only
 
 
 # ---------------------------------------------------------------------------------------------- one work item
@@ -301,14 +308,18 @@ def run_item(g, it):
         for p in sorted(base_tree):
             if p in t and t[p] != base_tree[p]:
                 fc = file_class(tool, p)
-                if ndiag >= 60:      # enough files diagnosed line by line; the rest only by class
+                if ndiag >= 12:      # enough files diagnosed line by line; the rest only by class
                     report(cfg, 'line: (not diagnosed)', fc, 'bytes differ in ' + fc, p, now_path)
                     continue
                 ndiag += 1
                 pairs = differing_lines(os.path.join(cwd, p), os.path.join(base_keep, p))
                 seen_f = set()
                 for now, base in pairs:
-                    if now is None and base is None:
+                    if len(seen_f) >= MAX_LINE_FEATURES_PER_FILE:
+                        break
+                    if now == REORDERED:
+                        feat, now, base = 'order of output lines', '(same lines, different order)', '(same lines, different order)'
+                    elif now is None and base is None:
                         feat = 'line: (unreadable or only line ends differ)'
                     else:
                         feat = line_feature(tool, now or '', base, ctx) if now is not None else line_feature(tool, '', base, ctx)
